@@ -172,8 +172,7 @@ def homogeneity(env, kind, layers, integrate, size=14, kval=None):
     import forsys as fs
     import forsys.myosin as my
     if kval is None:
-        k = env.real("k")
-        env.assume(k > 0)
+        k = env.real("k")      # any real factor, negative ones included
     else:
         from fractions import Fraction
         k = Fraction(kval).limit_denominator(1000) if env.mode == "sym" else float(kval)
